@@ -11,7 +11,7 @@ cleanup() { git -C /repo worktree remove --force "$WT" 2>/dev/null; rm -rf "$WT"
 /venv/bin/python "$OUT/demo.py" "$WT/src" >/tmp/vet_${ID}_clean.log 2>&1; RC_CLEAN=$?
 if ! git -C "$WT" apply "$OUT/patch.diff"; then echo "PATCH-DOES-NOT-APPLY"; cleanup; exit 2; fi
 /venv/bin/python "$OUT/demo.py" "$WT/src" >/tmp/vet_${ID}_patched.log 2>&1; RC_PATCHED=$?
-BASE=$(/venv/bin/python /tmp/agent_tools/run_baseline.py "$WT" 2>&1 | tail -1)
+BASE=$(/venv/bin/python /verif/tools/run_baseline_at.py "$WT" 2>&1 | tail -1)
 cleanup
 echo "$ID: demo clean rc=$RC_CLEAN patched rc=$RC_PATCHED; $BASE"
 case "$BASE" in *"missing=0"*) ;; *) echo "REJECT: baseline changed"; exit 1;; esac
